@@ -32,6 +32,8 @@ def nontrivial(tr):
         return True
     acc = any(s['args'][3] == 'added' for s in tr['steps'])
     rej = any(s['args'][3] in ('errProof', 'errIndex') for s in tr['steps'])
+    if tr['init'].get('hdr', 'genuine') != 'genuine':
+        return rej      # under the crafted empty-root header nothing is ever accepted
     return acc and rej
 
 
@@ -166,10 +168,11 @@ def run(ctx, replay=None):
     ctx.cov['exhaustive'] = True
     for t in all_traces:
         if t['cfg']['kind'] == 'dyn':
-            ctx.sample({'id': t['id'], 'cfg': t['cfg'], 'total': t['init']['total'],
+            ctx.sample({'id': t['id'], 'cfg': t['cfg'], 'total': t['init']['total'], 'hdr': t['init'].get('hdr'),
                         'actions': ['%s%s' % (s['a'], s['args']) for s in t['steps'][:10]]}, limit=3)
     ctx.assumptions += ['the hash is collision free and leaf/inner hashes never coincide (symbolic hash in the specs); '
                         'SimpleHashFromTwoHashes has no leaf/inner domain separation - second-preimage crafting is out of scope',
-                        'part size >= 1 (NewPartSetFromData divides by it); header.Total >= 0',
+                        'part size >= 1 (NewPartSetFromData divides by it); header.Total >= 0; receiver headers: the genuine one and the crafted '
+                        '{right Total, nil / zero-length Hash} under which no part is genuine',
                         'the receiver takes total and root from the same header; what a proof shows under ANOTHER total is '
                         'recorded as the known finding ProofBindsTotal']
